@@ -34,6 +34,33 @@ fn get_time(matcher_io: &mut MatcherIO, today_start: bool) -> SystemTime {
     }
 }
 
+/// The calendar time (UTC) of a time stamp, or `None` where chrono cannot represent it (a file
+/// system with 64-bit time stamps can hold times some millions of years away; the `From`
+/// conversions panic there).
+pub(super) fn utc_datetime(time: SystemTime) -> Option<DateTime<chrono::Utc>> {
+    let (secs, nanos) = match time.duration_since(UNIX_EPOCH) {
+        Ok(d) => (i64::try_from(d.as_secs()).ok()?, d.subsec_nanos()),
+        Err(e) => {
+            let d = e.duration();
+            let secs = i64::try_from(d.as_secs()).ok()?;
+            if d.subsec_nanos() == 0 {
+                (-secs, 0)
+            } else {
+                (-secs - 1, 1_000_000_000 - d.subsec_nanos())
+            }
+        }
+    };
+    DateTime::from_timestamp(secs, nanos)
+}
+
+/// Seconds since the epoch as text, for time stamps that have no calendar form.
+pub(super) fn epoch_seconds(time: SystemTime) -> String {
+    match time.duration_since(UNIX_EPOCH) {
+        Ok(d) => d.as_secs().to_string(),
+        Err(e) => format!("-{}", e.duration().as_secs()),
+    }
+}
+
 /// This matcher checks whether a file is newer than the file the matcher is initialized with.
 pub struct NewerMatcher {
     given_modification_time: SystemTime,
@@ -199,17 +226,13 @@ impl NewerTimeMatcher {
 
     fn matches_impl(&self, file_info: &WalkEntry) -> Result<bool, Box<dyn Error>> {
         let this_time = self.newer_time_type.get_file_time(file_info.metadata()?)?;
-        let timestamp = this_time
-            .duration_since(UNIX_EPOCH)
-            .unwrap_or_else(|e| e.duration());
+        // (milliseconds as i128: a 64-bit time stamp does not fit an i64 of milliseconds)
+        let millis: i128 = match this_time.duration_since(UNIX_EPOCH) {
+            Ok(d) => d.as_millis() as i128,
+            Err(e) => -(e.duration().as_millis() as i128),
+        };
 
-        // timestamp.as_millis() return u128 but time is i64
-        // This may leave memory implications. :(
-        Ok(self.time
-            <= timestamp
-                .as_millis()
-                .try_into()
-                .expect("timestamp memory implications"))
+        Ok(i128::from(self.time) <= millis)
     }
 }
 
